@@ -144,11 +144,12 @@ func cmdCheck(args []string) int {
 	for n := range owner {
 		visit(n)
 	}
+	// ... and a property about what a call returns does not hold for an input on which the call panics
+	// or does not return, so the safety and termination obligations of those functions count as well
+	// (found by seed C17-d: a panic in the lexer is a Compile that returns "neither"). Only the frame
+	// obligations stay with the properties that are about writes.
 	isContractObl := func(o *Obligation) bool {
-		if o.Kind == "post" || o.Kind == "requires" {
-			return true
-		}
-		return strings.HasPrefix(o.Kind, "loop") && !strings.HasPrefix(strings.TrimPrefix(o.Name, o.Func+"/"+o.Kind+"/"), "variant")
+		return o.Kind != "frame" && !strings.Contains(o.Name, "/frame/")
 	}
 	nDep := 0
 	for _, n := range p.cs.Order {
